@@ -349,7 +349,12 @@ func CaptureStdout(f func()) string {
 }
 
 // Run executes pprof once. Panics on the calling goroutine are recovered and reported in Res.Panic.
-func Run(q Req) *Res {
+func Run(q Req) *Res { return run(q, true) }
+
+// RunNoCapture is Run without redirecting os.Stdout (which serialises callers): for concurrent runs.
+func RunNoCapture(q Req) *Res { return run(q, false) }
+
+func run(q Req, capture bool) *Res {
 	flags := map[string]string{}
 	for k, v := range Defaults {
 		flags[k] = v
@@ -385,14 +390,19 @@ func Run(q Req) *Res {
 		o.HTTPTransport = failRT{}
 	}
 	res := &Res{W: w, UI: ui, F: fe}
-	res.Stdout = CaptureStdout(func() {
+	body := func() {
 		defer func() {
 			if r := recover(); r != nil {
 				res.Panic = fmt.Sprintf("%v\n%s", r, trim(debug.Stack()))
 			}
 		}()
 		res.Err = driver.PProf(o)
-	})
+	}
+	if capture {
+		res.Stdout = CaptureStdout(body)
+	} else {
+		body()
+	}
 	if len(fs.errs) > 0 && res.Err == nil {
 		res.Err = fmt.Errorf("flag parse: %s", strings.Join(fs.errs, "; "))
 	}
